@@ -123,7 +123,7 @@ def entry_fields(file, entry_pos, field_delim="\xFF"):
     relfilepath_ecc = entry[second+len(field_delim):third]
     filesize_ecc = entry[third+len(field_delim):fourth]
     # Ecc stream field (aka ecc blocks)
-    ecc_field_pos = [entry_pos[0]+stripped+fourth+len(field_delim), entry_pos[1]] # return the starting and ending position of the rest of the ecc track, which contains blocks of hash/ecc of the original file's content.
+    ecc_field_pos = [min(entry_pos[0]+stripped+fourth+len(field_delim), entry_pos[1]), entry_pos[1]] # return the starting and ending position of the rest of the ecc track, which contains blocks of hash/ecc of the original file's content.
 
     # Place the cursor at the beginning of the ecc_field
     file.seek(ecc_field_pos[0])
